@@ -90,9 +90,9 @@ Qed.
 
 (* ---- mul ---------------------------------------------------------------------------------------- *)
 
-Theorem mul_fixed_encloses z I J x y : mem x I -> mem y J -> mem (x * y) (mul_assign_fixed C so z I J).
+Theorem mul_encloses z I J x y : mem x I -> mem y J -> mem (x * y) (Interval.mul_assign C so z I J).
 Proof.
-  intros Hx Hy. unfold mul_assign_fixed, mul_assign_gen, mul_ladder. rewrite (empty_args x y I J Hx Hy).
+  intros Hx Hy. unfold Interval.mul_assign, mul_assign_gen, mul_ladder. rewrite (empty_args x y I J Hx Hy).
   unfold infinity_sign, is_reverse_infinity. cbn [Z.eqb negb].
   fold (upper_sign I). fold (upper_sign J).
   pose proof (fac_lo x I Hx) as F1. pose proof (fac_up x I Hx) as F2.
